@@ -3,6 +3,7 @@ package engine
 import (
 	"fmt"
 	"go/types"
+	"strings"
 )
 
 // Instance contracts. `//@ func f @label` with `bind p = expr` clauses is a contract of f for the calls in
@@ -145,4 +146,34 @@ func (ex *Exec) autoInlinePkg(path string) bool {
 		}
 	}
 	return false
+}
+
+// boundArgExpr: Go source of the argument for a parameter that an instance contract binds (`bind p = pkg.Var`),
+// as written inside package ownPkg; "" when the parameter is not bound.
+func boundArgExpr(c *Contract, param, ownPkg string) string {
+	for _, b := range c.Binds {
+		if b.Name == param {
+			src := strings.TrimSpace(b.Src)
+			if strings.HasPrefix(src, ownPkg+".") {
+				src = strings.TrimPrefix(src, ownPkg+".")
+			}
+			return src
+		}
+	}
+	return ""
+}
+
+// boundArgImport: the package a qualified bind expression (pkg.Var) refers to, for the replay harness's imports.
+func (p *Program) boundArgImport(be string) (path, name string) {
+	i := strings.Index(be, ".")
+	if i <= 0 {
+		return "", ""
+	}
+	name = be[:i]
+	for _, sp := range p.Prog.AllPackages() {
+		if sp.Pkg.Name() == name && strings.HasPrefix(sp.Pkg.Path(), cadenceMod) {
+			return sp.Pkg.Path(), name
+		}
+	}
+	return "", ""
 }
